@@ -1,4 +1,5 @@
 import Driver.Ops.Tftp
+import Driver.Ops.Http
 /-
 Line protocol: one JSON object per input line with a field "op"; one JSON object per
 output line: {"ok": <result>} or {"err": "<message>"}.
@@ -6,7 +7,7 @@ output line: {"ok": <result>} or {"err": "<message>"}.
 open Lean Driver
 
 def allOps : List (String × Op) :=
-  Driver.Tftp.ops
+  Driver.Tftp.ops ++ Driver.Http.ops
 
 def handleLine (line : String) : String :=
   match Json.parse line with
